@@ -98,7 +98,9 @@ class NodeRecorder:
                 orig(self, out, addr, port, v6_flow_scope, transport)
                 if len(sim.net.log) != before:
                     rec.sends.append((sim.now, None if addr is None else (addr, port), out))
-                    rec.out([1, sim.now, [] if addr is None else [addr, port], vmsg(out)])
+                    # questions without an authority section come from browsers and lookups, which the node model does not contain
+                    if not (out.is_query() and not out.authorities):
+                        rec.out([1, sim.now, [] if addr is None else [addr, port], vmsg(out)])
             return async_send
         self._patch(Z, 'async_send', mk_send)
 
@@ -249,7 +251,7 @@ class NodeRecorder:
                 try:
                     orig(self, packets, addr, port, transport, v6_flow_scope)
                 finally:
-                    rec.labels[idx] = (f"LQuery {cz(sim.now)} {msgs} {cz(packets[0].id)} {ctext(addr)} {cz(port)} "
+                    rec.labels[idx] = (f"LQuery {cz(sim.now)} {msgs} {cz(packets[0].id if packets else 0)} {ctext(addr)} {cz(port)} "
                                        f"{cz(rec._draws.get('q', 0))} {cz(rec._draws.get('qd', 0))}")
             return handle_assembled_query
         self._patch(QueryHandler, 'handle_assembled_query', mk_query)
